@@ -6,6 +6,8 @@
    AppendSync has written and fsynced its record before it returns is an ordering property of
    system calls: it is checked on the strace of the real appender by the correspondence. *)
 From GoSST Require Import Base.Bytes RecordIO.Format RecordIO.WriteReadFacts Wal.Wal Wal.WalFacts.
+From GoSST Require Import Fs.OrderFacts.
+From GoSSTGen Require Import FactsCode.
 Local Open Scope N_scope.
 
 Theorem C07_replay_is_appended :
@@ -46,3 +48,15 @@ Theorem C07_contained_is_prefix_and_complete :
         exists rest, contained c (pre ++ r :: post) n = pre ++ r :: rest).
 Proof. intros c H. split; [exact (contained_prefix c)|exact (contained_complete c H)]. Qed.
 Print Assumptions C07_contained_is_prefix_and_complete.
+
+(* the order of the persistence steps of the log in the source, re-read from the Go syntax trees on every run: a
+   synchronous append writes, flushes, then fsyncs; Close flushes before it truncates or closes; Rotate closes the old
+   file before the next one exists - which is why the cut file of C07_wal_crash_prefix is the newest one and why no
+   image shows a file longer than its flushed content *)
+Theorem C07_log_order_facts :
+  writesync_write_before_flush = Some true /\ writesync_flush_before_fsync = Some true /\
+  writer_close_flush_before_truncate = Some true /\ writer_close_flush_before_close = Some true /\
+  appendsync_uses_writesync = true /\ appendsync_checks_size_first = Some true /\
+  rotate_closes_before_next_file = Some true.
+Proof. exact log_facts. Qed.
+Print Assumptions C07_log_order_facts.
